@@ -363,18 +363,21 @@ Proof.
       destruct (eff_distinct q); cbn in H; [now rewrite In_dedup in H|assumption].
 Qed.
 
-(* bulk delete: the DELETE statement removes the WHERE-selected rows; they are the rows of list(q) when q has no window *)
-Theorem bulk_delete_exact q : q_window q = no_window -> (eff_distinct q = false \/ NoDup (q_rows q)) ->
-  Permutation (bulk_deleted q) (q_list q).
+(* bulk delete removes exactly the selected rows: the DELETE statement removes the WHERE-selected rows of a query without a
+   window, and a query with a window is deleted object by object *)
+Theorem bulk_delete_exact q : (eff_distinct q = false \/ NoDup (q_rows q)) ->
+  Permutation (bulk_deleted eqb q) (q_list q).
 Proof.
-  intros Hw H. rewrite q_list_no_window by assumption. unfold bulk_deleted, C24Query.full. rewrite isort_perm.
+  intros H. unfold bulk_deleted. destruct (q_window q) as [l o] eqn:Hw.
+  destruct l as [l|]; [reflexivity|]. destruct o as [o|]; [reflexivity|].
+  rewrite q_list_no_window by exact Hw. unfold C24Query.full. rewrite isort_perm.
   destruct H as [->|Hn]; [reflexivity|]. destruct (eff_distinct q); [|reflexivity]. cbn.
   rewrite dedup_NoDup; auto using NoDup_filter.
 Qed.
 
-Theorem bulk_delete_both q : q_window q = no_window -> (eff_distinct q = false \/ NoDup (q_rows q)) ->
-  Permutation (bulk_deleted q) (q_list q) /\ plain_deleted eqb q = q_list q.
-Proof. intros Hw H. split; [exact (bulk_delete_exact q Hw H) | reflexivity]. Qed.
+Theorem bulk_delete_both q : (eff_distinct q = false \/ NoDup (q_rows q)) ->
+  Permutation (bulk_deleted eqb q) (q_list q) /\ plain_deleted eqb q = q_list q.
+Proof. intros H. split; [exact (bulk_delete_exact q H) | reflexivity]. Qed.
 
 End QueryProofs.
 
@@ -519,13 +522,13 @@ Proof.
   split; [intros [-> ->]; reflexivity | intros H; inversion H; auto].
 Qed.
 
-(* count() of a tuple query that is executed without DISTINCT is len(list(q)) *)
-Theorem count_pair_list (q : query (A:=Z * Z)) : q_window q = no_window -> eff_distinct q = false ->
+(* count() of a tuple query is len(list(q)), with or without DISTINCT *)
+Theorem count_pair_list (q : query (A:=Z * Z)) : q_window q = no_window ->
   q_count_pair None q = Ok (zlen (q_list zz_eqb q)).
 Proof.
-  intros Hw Hd. unfold q_count_pair. rewrite Hw, Hd. cbn [combine no_window fst snd combine_limit_and_offset negb andb].
-  rewrite (q_list_no_window zz_eqb q Hw). unfold full. rewrite Hd. cbn [dedup_if].
-  f_equal. symmetry. apply zlen_perm, isort_perm.
+  intros Hw. unfold q_count_pair. rewrite Hw. cbn [combine no_window fst snd combine_limit_and_offset].
+  rewrite (q_list_no_window zz_eqb q Hw). unfold full.
+  destruct (eff_distinct q); cbn [dedup_if]; f_equal; symmetry; apply zlen_perm, isort_perm.
 Qed.
 
 End MoreAggregates.
